@@ -5,5 +5,6 @@ CONSTANTS
   MaxLoads = 2
   TTL = 1
   GenCheck = TRUE
+  Locked = TRUE
   Export = TRUE
 INVARIANTS Emit
